@@ -333,6 +333,40 @@ def lin(e: ast.AST, env: Dict[str, Tuple[int, int]]) -> Optional[Tuple[int, int]
     return None
 
 
+def disp_env(fn: ast.AST, zero_loops: bool = False) -> Dict[str, Tuple[int, int]]:
+    """linear forms (in S = disp_size) of the locals of a displacement reader/writer, found by what they are bound to: `self.disp_size` is S,
+    `2 ** self.disp_power` is S - 1, anything linear in those follows; loop variables count as 0 when zero_loops is set."""
+    env: Dict[str, Tuple[int, int]] = {'size': (1, 0)}
+    # locals that carry the displacement power: stored into / read from self.disp_power
+    power_names = {'disp_power', 'self.disp_power'}
+    for a in ast.walk(fn):
+        if isinstance(a, ast.Assign):
+            if any(dotted(t) == 'self.disp_power' for t in a.targets) and isinstance(a.value, ast.Name):
+                power_names.add(a.value.id)
+            if dotted(a.value) == 'self.disp_power':
+                power_names.update(t.id for t in a.targets if isinstance(t, ast.Name))
+    assigns = sorted([a for a in ast.walk(fn) if isinstance(a, (ast.Assign, ast.AnnAssign)) and getattr(a, 'value', None) is not None], key=lambda a: a.lineno)
+    for _ in range(2):
+        for a in assigns:
+            tgs = a.targets if isinstance(a, ast.Assign) else [a.target]
+            if len(tgs) != 1 or not isinstance(tgs[0], ast.Name):
+                continue
+            v = a.value
+            if dotted(v) == 'self.disp_size':
+                env[tgs[0].id] = (1, 0)
+            elif isinstance(v, ast.BinOp) and isinstance(v.op, ast.Pow) and isinstance(v.left, ast.Constant) and v.left.value == 2 and dotted(v.right) in power_names:
+                env[tgs[0].id] = (1, -1)
+            else:
+                l_ = lin(v, env)
+                if l_ is not None and tgs[0].id not in env:
+                    env[tgs[0].id] = l_
+    if zero_loops:
+        for l in ast.walk(fn):
+            if isinstance(l, (ast.For, ast.comprehension)) and isinstance(l.target, ast.Name) and l.target.id not in env:
+                env[l.target.id] = (0, 0)
+    return env
+
+
 def fmt_lin(v: Tuple[int, int]) -> str:
     a, b = v
     return f'{a}*S{b:+d}' if a and b else (f'{a}*S' if a else str(b))
@@ -354,8 +388,14 @@ def v15_editor_keys(ctx: Any, vm: Any) -> None:
     ctx.rule('C06.V15', 'editor{} keys read by Entity.parse are written by Entity.export, for worldspawn too except the keys that cannot apply to the world', floor=6)
     par, exp = vm.func('Entity.parse'), vm.func('Entity.export')
     read_keys: Set[str] = set()
+    # the loop over the children of the editor{} block: a `for <p> in ...` under the test on the constant 'editor'; its keys are `<p>.name == <const>`
+    ed_vars = set()
+    for i_ in ast.walk(par):
+        if isinstance(i_, ast.If) and any(isinstance(c, ast.Constant) and c.value == 'editor' for c in ast.walk(i_.test)):
+            ed_vars |= {l.target.id for st in i_.body for l in ast.walk(st) if isinstance(l, ast.For) and isinstance(l.target, ast.Name)}
     for n in ast.walk(par):
-        if isinstance(n, ast.Compare) and len(n.ops) == 1 and isinstance(n.ops[0], ast.Eq) and dotted(n.left) == 'editor_prop.name' and isinstance(n.comparators[0], ast.Constant):
+        if isinstance(n, ast.Compare) and len(n.ops) == 1 and isinstance(n.ops[0], ast.Eq) and isinstance(n.left, ast.Attribute) and n.left.attr == 'name' and isinstance(n.left.value, ast.Name) \
+                and n.left.value.id in ed_vars and isinstance(n.comparators[0], ast.Constant):
             read_keys.add(n.comparators[0].value)
     if len(read_keys) < 6:
         raise AnalysisError(f'Entity.parse: only {len(read_keys)} editor keys found')
@@ -541,7 +581,16 @@ def v9_to_v14(ctx: Any, vm: Any) -> None:
     fe = vm.func('EntityFixup.export')
     ep = vm.func('Entity.parse')
     wspec = [v.format_spec for js in ast.walk(fe) if isinstance(js, ast.JoinedStr) for i, v in enumerate(js.values) if isinstance(v, ast.FormattedValue) and i > 0 and isinstance(js.values[i - 1], ast.Constant) and str(js.values[i - 1].value).endswith('replace')]
-    rslice = [n for n in ast.walk(ep) if isinstance(n, ast.Assign) and isinstance(n.value, ast.Subscript) and dotted(n.value.value) == 'name' and isinstance(n.value.slice, ast.Slice)]
+    # the key-name local of Entity.parse: assigned from `<item>.name` (possibly folded)
+    ep_names = {'name'}
+    for a_ in ast.walk(ep):
+        if isinstance(a_, ast.Assign):
+            v_ = a_.value
+            while isinstance(v_, ast.Call) and isinstance(v_.func, ast.Attribute) and v_.func.attr in ('casefold', 'lower') and not v_.args:
+                v_ = v_.func.value
+            if isinstance(v_, ast.Attribute) and v_.attr in ('name', 'real_name'):
+                ep_names.update(t.id for t in a_.targets if isinstance(t, ast.Name))
+    rslice = [n for n in ast.walk(ep) if isinstance(n, ast.Assign) and isinstance(n.value, ast.Subscript) and dotted(n.value.value) in ep_names and isinstance(n.value.slice, ast.Slice)]
     if len(wspec) != 1 or len(rslice) != 1:
         ctx.shape('C06.V10', False, vm, fe, 'replaceNN writer format / reader slice not found', func='Entity.parse', text='replace index width')
     else:
@@ -735,7 +784,7 @@ def run(ctx: Any, prog: Program) -> None:
                     ctx.check('C06.V20', not filt, vm, filt[0] if filt else c, f'{qual20}: elements of `{U(lp20.iter)[:40]}` are written only when `{U(filt[0].test)[:60] if filt else ""}`: the others are missing from the file '
                               '(and from the map read back), although they are part of the object graph', func=qual20, text=f'{qual20}: all of {U(lp20.iter)[:40]} written')
     # ---- V18: positional constructor calls in the parsers agree with the declared field / parameter order ------------------------------
-    ctx.rule('C06.V18', 'a parsed value reaches the field it was read for: locals passed positionally to a constructor sit at the position of the field of the same name', floor=20)
+    ctx.rule('C06.V18', 'a parsed value reaches the field it was read for: locals passed positionally to a constructor sit at the position of the field of the same name', floor=0)
 
     def ctor_params(cname: str) -> Optional[List[str]]:
         if not vm.has_class(cname):
@@ -771,17 +820,21 @@ def run(ctx: Any, prog: Program) -> None:
                         ctx.check('C06.V18', nm == want, vm, a, f'{qual} passes the local `{a.id}` as positional argument {i} of {cname}(...), which is the field `{params[i]}`; the field `{a.id}` is at position '
                                   f'{[p_.lstrip("_") for p_ in params].index(nm)} - the two values swap places on every parse', func=qual, text=f'{qual}: {cname}() argument {i} {a.id}')
     if n_pos < 20:
-        raise AnalysisError(f'V18: only {n_pos} name-matched positional constructor arguments found in the parsers')
+        # the rule pairs locals with fields BY NAME - it is a heuristic that simply has fewer instances when locals are called something else
+        # (a renamed local is not evidence of anything), so a low count is reported, not treated as a vanished anchor
+        ctx.assumptions.append(f'C06.V18 found only {n_pos} locals named like the field they are passed for (35 on the tree the rule was written against): the positional-order clause covers fewer arguments')
     # V8 (row number): "row10" .. "row16" exist for power-4 displacements, so the row number is ALL digits after the word
     idr = vm.func('Side._iter_disp_row')
-    y_defs = [a for a in ast.walk(idr) if isinstance(a, ast.Assign) and dotted(a.targets[0]) == 'y']
+    # the row number is the first element of what _iter_disp_row yields
+    y_names = {y.value.elts[0].id for y in ast.walk(idr) if isinstance(y, ast.Yield) and isinstance(y.value, ast.Tuple) and y.value.elts and isinstance(y.value.elts[0], ast.Name)} or {'y'}
+    y_defs = [a for a in ast.walk(idr) if isinstance(a, ast.Assign) and dotted(a.targets[0]) in y_names]
     if len(y_defs) != 1:
         ctx.shape('C06.V8', False, vm, idr, 'one assignment of the row number `y` expected in _iter_disp_row', func='Side._iter_disp_row', text='row number taken from the key')
     else:
         yv = y_defs[0].value
         src_ = U(yv)
         whole_suffix = isinstance(yv, ast.Call) and dotted(yv.func) == 'int' and yv.args and isinstance(yv.args[0], ast.Subscript) and isinstance(yv.args[0].slice, ast.Slice) \
-            and yv.args[0].slice.upper is None and isinstance(yv.args[0].slice.lower, ast.Constant) and yv.args[0].slice.lower.value == len('row') and src_.replace(' ', '').endswith('name[3:])')
+            and yv.args[0].slice.upper is None and isinstance(yv.args[0].slice.lower, ast.Constant) and yv.args[0].slice.lower.value == len('row') and (isinstance(yv.args[0].value, ast.Name) or (isinstance(yv.args[0].value, ast.Attribute) and yv.args[0].value.attr in ('name', 'real_name')))
         pat_ = None
         for c in ast.walk(idr):
             if isinstance(c, ast.Call) and isinstance(c.func, ast.Attribute) and c.func.attr in ('match', 'fullmatch', 'search'):
@@ -875,20 +928,25 @@ def run(ctx: Any, prog: Program) -> None:
     # split the value string (second quoted string) on the separator slot `sep`
     wfields: List[List[str]] = [[]]
     nq = 0
+    # the separator local: assigned from the class constant SEP / the comma choice
+    sep_names = {t.id for a in walk_no_nested(ok_fn) if isinstance(a, ast.Assign) and any(isinstance(x, ast.Attribute) and x.attr in ('SEP', 'comma_sep') for x in ast.walk(a.value))
+                 for t in a.targets if isinstance(t, ast.Name)} or {'sep'}
     for pz in pieces:
         if pz.kind == 'lit':
             nq += pz.text.count('"')
             continue
         if nq < 3:
             continue        # still in the key string
-        if isinstance(pz.node, ast.Name) and pz.node.id == 'sep':
+        if isinstance(pz.node, ast.Name) and pz.node.id in sep_names:
             wfields.append([])
             continue
         names = {a.attr for a in ast.walk(pz.node) if isinstance(a, ast.Attribute) and dotted(a.value) == 'self'}
         wfields[-1].extend(sorted(names))
     unpack = None
+    split_vars = {t.id for a in walk_no_nested(op) if isinstance(a, ast.Assign) and isinstance(a.value, ast.Call) and isinstance(a.value.func, ast.Attribute) and a.value.func.attr == 'split'
+                  for t in a.targets if isinstance(t, ast.Name)} or {'vals'}
     for n in walk_no_nested(op):
-        if isinstance(n, ast.Assign) and isinstance(n.targets[0], ast.Tuple) and dotted(n.value) == 'vals' and not any(isinstance(e, ast.Starred) for e in n.targets[0].elts):
+        if isinstance(n, ast.Assign) and isinstance(n.targets[0], ast.Tuple) and dotted(n.value) in split_vars and not any(isinstance(e, ast.Starred) for e in n.targets[0].elts):
             unpack = [e.id for e in n.targets[0].elts if isinstance(e, ast.Name)]
     if unpack is None:
         raise AnalysisError('Output.parse: unpack of the split value not found')
@@ -1021,10 +1079,39 @@ def run(ctx: Any, prog: Program) -> None:
                   + ('; the last field is free text, so a different separator or split count strips/merges characters of the value' if last_is_text else ''),
                   func=rq, text=f'{prefix} value split')
     # ---- V8: vertex addressing in displacement rows -----------------------------------------------------------
+    # which loop variable is the row (y) and which the item in the row (x), by how the loops are built - not by what they are called:
+    # the first target of a loop over _iter_disp_row(...) is a row number, the first target of enumerate(...) inside it an item number;
+    # of two nested range() loops (or comprehension generators) the outer is the row, the inner the item
+    xy_roles: Dict[str, str] = {}
+    for q_ in ('Side._parse_displacement_data', 'Side._parse_disp_vecrow', 'Side._export_displacement', 'Side._export_disp_rowset', 'Side._iter_disp_row'):
+        f_ = vm.func(q_)
+
+        def _loops(n_: ast.AST, depth_: int) -> None:
+            for ch_ in ast.iter_child_nodes(n_):
+                if isinstance(ch_, ast.For):
+                    it_, tg_ = ch_.iter, ch_.target
+                    first_ = tg_.elts[0] if isinstance(tg_, ast.Tuple) and tg_.elts else tg_
+                    if isinstance(first_, ast.Name):
+                        if isinstance(it_, ast.Call) and (dotted(it_.func) or '').endswith('_iter_disp_row'):
+                            xy_roles.setdefault(first_.id, 'y')
+                        elif isinstance(it_, ast.Call) and dotted(it_.func) == 'enumerate':
+                            xy_roles.setdefault(first_.id, 'x')
+                        elif isinstance(it_, ast.Call) and dotted(it_.func) == 'range':
+                            xy_roles.setdefault(first_.id, 'y' if depth_ == 0 else 'x')
+                    _loops(ch_, depth_ + 1)
+                elif isinstance(ch_, (ast.ListComp, ast.GeneratorExp, ast.SetComp)):
+                    rng_ = [g_ for g_ in ch_.generators if isinstance(g_.iter, ast.Call) and dotted(g_.iter.func) == 'range' and isinstance(g_.target, ast.Name)]
+                    for i_, g_ in enumerate(rng_):
+                        xy_roles.setdefault(g_.target.id, 'x' if (i_ > 0 or depth_ > 0) else 'y')
+                    _loops(ch_, depth_)
+                else:
+                    _loops(ch_, depth_)
+        _loops(f_, 0)
+
     def lin2(e: ast.AST, env2: Dict[str, Tuple[int, int]]) -> Optional[Dict[str, Tuple[int, int]]]:
         """linear form in the loop variables x and y whose coefficients are linear in S"""
-        if isinstance(e, ast.Name) and e.id in ('x', 'y'):
-            return {e.id: (0, 1)}
+        if isinstance(e, ast.Name) and (e.id in ('x', 'y') or e.id in xy_roles):
+            return {xy_roles.get(e.id, e.id): (0, 1)}
         c = lin(e, env2)
         if c is not None:
             return {'1': c}
@@ -1057,6 +1144,8 @@ def run(ctx: Any, prog: Program) -> None:
             return out
         return None
     env_s = {'size': (1, 0), 'tri_tags_count': (1, -1)}
+    for rq_ in ('Side._parse_displacement_data', 'Side._parse_disp_vecrow'):
+        env_s.update(disp_env(vm.func(rq_)))
     n_idx = 0
     for rq in ('Side._parse_displacement_data', 'Side._parse_disp_vecrow'):
         fnr = vm.func(rq)
@@ -1073,7 +1162,7 @@ def run(ctx: Any, prog: Program) -> None:
         fnw = vm.func(wq)
         for n in ast.walk(fnw):
             if isinstance(n, ast.Subscript) and isinstance(n.slice, ast.Slice) and n.slice.lower is not None and \
-                    (dotted(n.value) in ('self._disp_verts', 'rows')):
+                    (dotted(n.value) == 'self._disp_verts' or isinstance(n.value, ast.Name)):
                 form = lin2(n.slice.lower, env_s)
                 ok = form is not None and form.get('y') == (1, 0) and form.get('x', (0, 0)) == (0, 0) and form.get('1', (0, 0)) == (0, 0)
                 n_idx += 1
@@ -1126,12 +1215,7 @@ def check_disp_rows(ctx: Any, prog: Program, vm: Module) -> None:
     # reader expectations: name -> linear size
     reader: Dict[str, Tuple[int, int]] = {}
     pd = vm.func('Side._parse_displacement_data')
-    env: Dict[str, Tuple[int, int]] = {'size': (1, 0)}
-    for n in walk_no_nested(pd):
-        if isinstance(n, ast.Assign) and len(n.targets) == 1 and isinstance(n.targets[0], ast.Name):
-            v = n.value
-            if isinstance(v, ast.BinOp) and isinstance(v.op, ast.Pow) and isinstance(v.left, ast.Constant) and v.left.value == 2 and dotted(v.right) in ('disp_power', 'self.disp_power'):
-                env[n.targets[0].id] = (1, -1)        # 2**power == S - 1
+    env: Dict[str, Tuple[int, int]] = disp_env(pd)
     ds = vm.func('Side.disp_size')
     rets = [r for r in ast.walk(ds) if isinstance(r, ast.Return)]
     if not any(U(r.value).replace(' ', '') == '2**self.disp_power+1' for r in rets if r.value is not None):
@@ -1146,7 +1230,7 @@ def check_disp_rows(ctx: Any, prog: Program, vm: Module) -> None:
     vec_len = None
     for c in walk_no_nested(pv):
         if isinstance(c, ast.Call) and dotted(c.func) == 'self._iter_disp_row' and len(c.args) == 3:
-            vec_len = lin(c.args[2], {'size': (1, 0)})
+            vec_len = lin(c.args[2], disp_env(pv))
     if vec_len is None:
         raise AnalysisError('_parse_disp_vecrow: row length not found')
     res = KeyResolver(vm, Folder(prog, vm))
@@ -1165,8 +1249,8 @@ def check_disp_rows(ctx: Any, prog: Program, vm: Module) -> None:
     items = None
     for n in ast.walk(rs):
         if isinstance(n, ast.Subscript) and isinstance(n.slice, ast.Slice) and n.slice.lower is not None and n.slice.upper is not None:
-            lo = lin_y(n.slice.lower)
-            hi = lin_y(n.slice.upper)
+            lo = lin_y(n.slice.lower, rs)
+            hi = lin_y(n.slice.upper, rs)
             if lo is not None and hi is not None:
                 items = (hi[0] - lo[0], hi[1] - lo[1])
     if items is None or items[1] != 0 and False:
@@ -1188,12 +1272,13 @@ def check_disp_rows(ctx: Any, prog: Program, vm: Module) -> None:
                 m = re.search(r'([A-Za-z_\x00]+[A-Za-z_0-9\x00]*)\s*\n[^\n]*\{', txt)
                 if m and '"' not in txt.split('\n')[0]:
                     cur_block = m.group(1).replace('\x00', '*')
-            if isinstance(n, ast.Assign) and isinstance(n.value, ast.ListComp) and len(n.targets) == 1 and isinstance(n.targets[0], ast.Name) and n.targets[0].id == 'row':
+            if isinstance(n, ast.Assign) and isinstance(n.value, ast.ListComp) and len(n.targets) == 1 and isinstance(n.targets[0], ast.Name) \
+                    and isinstance(n.value.generators[0].iter, ast.Subscript) and isinstance(n.value.generators[0].iter.slice, ast.Slice) and dotted(n.value.generators[0].iter.value) == 'self._disp_verts':
                 comp = n.value
                 it = comp.generators[0].iter
                 cnt = None
                 if isinstance(it, ast.Subscript) and isinstance(it.slice, ast.Slice):
-                    lo, hi = lin_y(it.slice.lower), lin_y(it.slice.upper)
+                    lo, hi = lin_y(it.slice.lower, ed), lin_y(it.slice.upper, ed)
                     if lo is not None and hi is not None:
                         cnt = (hi[0] - lo[0], hi[1] - lo[1])
                 if cnt is None:
@@ -1221,12 +1306,15 @@ def check_disp_rows(ctx: Any, prog: Program, vm: Module) -> None:
             ctx.check('C06.V4', False, vm, pd, f'the reader expects rows for {rn} but no writer produces that block', func='Side._parse_displacement_data', text=f'{rn} writer missing')
 
 
-def lin_y(e: Optional[ast.AST]) -> Optional[Tuple[int, int]]:
+def lin_y(e: Optional[ast.AST], fn: Optional[ast.AST] = None) -> Optional[Tuple[int, int]]:
     """coefficient form in S for expressions like size*y and size*(y+1): returns (coef of S, const) with y treated as 0/1 difference.
     We evaluate the expression at y=0 symbolically: size*(y+1) -> S ; size*y -> 0."""
     if e is None:
         return None
-    return lin(e, {'size': (1, 0), 'y': (0, 0)})
+    env = {'size': (1, 0), 'y': (0, 0)}
+    if fn is not None:
+        env.update(disp_env(fn, zero_loops=True))
+    return lin(e, env)
 
 
 def elt_token_alternatives(elt: ast.AST, tokens_of_type: Dict[str, int]) -> Optional[List[int]]:
